@@ -69,23 +69,35 @@ func dceFollower(kind int) []Stmt {
 const dceFollowers = 11
 
 // DcePlacements lists where the function body is placed.
-var DcePlacements = []string{"func", "closure", "module"}
+// "nested": the body stands in an outer function after a nested function literal that holds the same body plus
+// padding (so the inner function is optimised while the outer one is still being compiled, and is at least as
+// long); the outer function ends either in `return x` or in `if p { return x }` (a jump to the function end
+// followed by nothing).
+var DcePlacements = []string{"func", "closure", "module", "nested"}
 
 // Dce generates one program per chooser path. Inputs: P, Q (booleans).
 func Dce(ch *Chooser) CflowProgram {
 	pl := DcePlacements[ch.Choose(len(DcePlacements))]
-	dead := dceDead[ch.Choose(len(dceDead))]()
-	prod := dceProducer(ch.Choose(dceProducers), dead)
-	fol := dceFollower(ch.Choose(dceFollowers))
-	var body []Stmt
-	switch ch.Choose(3) {
-	case 0:
-		body = append(append(body, prod...), fol...)
-	case 1:
-		body = append(append(body, fol...), prod...)
-	default:
-		body = append(append(append(body, fol...), prod...), dceFollower(ch.Choose(dceFollowers))...)
+	deadIdx, prodIdx, folIdx, order, fol2Idx := ch.Choose(len(dceDead)), ch.Choose(dceProducers), ch.Choose(dceFollowers), ch.Choose(3), 0
+	if order == 2 {
+		fol2Idx = ch.Choose(dceFollowers)
 	}
+	// fresh AST nodes on every call (a body may be placed twice)
+	mkBody := func() []Stmt {
+		prod := dceProducer(prodIdx, dceDead[deadIdx]())
+		fol := dceFollower(folIdx)
+		var body []Stmt
+		switch order {
+		case 0:
+			body = append(append(body, prod...), fol...)
+		case 1:
+			body = append(append(body, fol...), prod...)
+		default:
+			body = append(append(append(body, fol...), prod...), dceFollower(fol2Idx)...)
+		}
+		return body
+	}
+	body := mkBody()
 	p := &Program{Inputs: []string{"P", "Q"}}
 	switch pl {
 	case "func":
@@ -102,6 +114,21 @@ func Dce(ch *Chooser) CflowProgram {
 		mb = append(mb, &Export{X: I("x")})
 		p.Modules = map[string][]Stmt{"m": mb}
 		p.Main = []Stmt{Def("out", &Import{Name: "m"})}
+	case "nested":
+		inner := append([]Stmt{Def("x", N("0"))}, mkBody()...)
+		for i := 0; i < 3; i++ {
+			inner = append(inner, &Assign{LHS: I("x"), Op: "+=", RHS: N("1")})
+		}
+		inner = append(inner, &Return{X: I("x")})
+		fb := []Stmt{Def("x", N("0")), Def("h", &FuncLit{Params: []string{"p", "q"}, Body: inner})}
+		fb = append(fb, body...)
+		if ch.Choose(2) == 0 {
+			fb = append(fb, &Return{X: &ArrayLit{Elems: []Expr{I("x"), C(I("h"), I("q"), I("p"))}}})
+		} else {
+			fb = append(fb, &If{Cond: I("p"), Then: []Stmt{&Return{X: &ArrayLit{Elems: []Expr{I("x"), C(I("h"), I("q"), I("p"))}}}}})
+		}
+		p.Main = []Stmt{Def("f", &FuncLit{Params: []string{"p", "q"}, Body: fb}),
+			Def("out", &ArrayLit{Elems: []Expr{C(I("f"), I("P"), I("Q")), C(I("f"), I("Q"), I("P"))}})}
 	}
 	return CflowProgram{Placement: "dce-" + pl, Prog: p}
 }
